@@ -20,7 +20,7 @@ from mc import catalogue, env, mibspec
 from mc.env import error
 
 BOUNDS = {
-    'quick': '24 seeds; all prefixes (LF and CRLF layouts); deletion+duplication+8-token insertion/replacement '
+    'quick': '28 seeds; all prefixes (LF and CRLF layouts); deletion+duplication+8-token insertion/replacement '
              'at every position; 4 noise characters at every offset; all lexical families',
     'thorough': 'every quick-catalogue text (575) for token mutations with a 42-token alphabet; 60 seeds for '
                 'prefixes and 7 noise characters at every offset; all lexical families',
@@ -37,7 +37,7 @@ TIME_BUDGET = 20
 QUICK_SEEDS = ['ot-parts-0', 'ot-text-3', 'ot-text-4', 'ot-oid-3', 'ot-index-v1-1', 'type-22', 'tc-255a-RFC 1-1',
                'choice-1', 'macro-1-0', 'macro-0-3', 'exports-imp-1', 'imports-2', 'module-oid-1', 'oi-RFC 2',
                'nt-RFC 2-2', 'og-None-2', 'ng-RFC 2-3', 'trap-2-True-True', 'mi-2-2', 'mc-multi-2', 'ac-3-True',
-               'two-modules', 'three-modules', 'table']
+               'two-modules', 'three-modules', 'table', 'ot-text-7', 'macro-3-0', 'exports-3', 'choice-4']
 MORE_SEEDS = ['ot-parts-%d' % i for i in (3, 9, 17, 25, 33, 41)] + \
              ['ot-syntax-%d' % i for i in (2, 5, 6, 9, 13, 16, 20, 21, 30, 36, 44, 50)] + \
              ['type-%d' % i for i in (60, 61, 62, 63)] + ['type-smi-0', 'choice-3', 'macro-2-0', 'exports-1',
@@ -67,6 +67,8 @@ def entry(eid):
 
 
 def dialect_of(e, i=0):
+    if e.get('only'):
+        return e['only'][0]
     ds = ['smiV1', 'smiV1Relaxed'] if e['v1'] else ['smiV2', 'smiV1Relaxed', 'smiV1']
     return ds[i % len(ds)]
 
